@@ -1,6 +1,6 @@
 (* extraction of the Backoff model — ExtrOcamlBasic only; Z/positive/nat stay inductive *)
 Require Extraction.
 Require Import ExtrOcamlBasic.
-From Verif Require Import Backoff.Model.
+From Verif Require Import Backoff.Model Backoff.ProofsFloat.
 Extraction Language OCaml.
-Extraction "backoff_model.ml" step init_world get_types latest_errs expo killed_sig.
+Extraction "backoff_model.ml" step init_world get_types latest_errs expo killed_sig go_expo.
